@@ -164,7 +164,7 @@ func (s *verifFakeSource) state() ([][]byte, int) {
 // deadline passes: something did not arrive), leave a little room for surplus traffic, then read
 // the destinations' logs and the source's FIN / REQ record into the world.
 func (w *verifMainWorld) verifCollectNative(n int) {
-	deadline := time.Now().Add(4 * time.Second)
+	deadline := verifWallClock().Add(4 * time.Second)
 	for {
 		got := 0
 		for _, d := range w.dests {
@@ -172,7 +172,7 @@ func (w *verifMainWorld) verifCollectNative(n int) {
 			got += len(bodies)
 		}
 		fins, _ := w.src.state()
-		if (got >= n && len(fins) >= n) || time.Now().After(deadline) {
+		if (got >= n && len(fins) >= n) || verifWallClock().After(deadline) {
 			break
 		}
 		time.Sleep(2 * time.Millisecond)
